@@ -41,6 +41,7 @@ func cmdHarness(args []string) {
 	maxPaths := fs.Int("maxpaths", 0, "")
 	knownFlag := fs.String("known", "", "comma-separated open finding ids")
 	sched := fs.Int("sched", -1, "explore schedules with this many preemptions")
+	mapOrder := fs.String("maporder", "", "comma-separated function-name substrings whose map ranges get a solver-chosen start")
 	fs.Parse(args)
 	t0 := time.Now()
 	p, err := explore.Load(*repo, *hdir, []string{*pkg})
@@ -57,6 +58,9 @@ func cmdHarness(args []string) {
 	}
 	spec := explore.HarnessSpec{Name: *fn, Solver: *solver, MaxPaths: *maxPaths, Params: map[string]int{}}
 	json.Unmarshal([]byte(*params), &spec.Params)
+	if *mapOrder != "" {
+		spec.MapOrder = strings.Split(*mapOrder, ",")
+	}
 	if *sched >= 0 {
 		spec.Sched, spec.MaxPre = true, *sched
 	}
